@@ -672,6 +672,29 @@ def run(rep, tier, seed, replay=None):
                 ptol = 1e-9 * max(tot, 1e-300)
                 path_terms.append('(%s, %s, %s)' % (coq_list([bf(x) for x in lens]), bf(ptol), bf(tot)))
                 path_meta.append((segs, cfg, lens, tot))
+                # "a path's length is the sum of its segments' lengths" — also after the MutableSequence was
+                # edited without changing the number of segments (pop+append / del+insert), lengths cached
+                if n >= 2:
+                    P._quad_available = cfg
+                    try:
+                        j = rng.randrange(n)
+                        newseg = rng.choice(pool)
+                        segs2 = list(segs)
+                        if rng.random() < 0.5:
+                            path.pop(); path.append(mk_seg(*newseg)); segs2[-1] = newseg
+                        else:
+                            del path[j]; path.insert(j, mk_seg(*newseg)); segs2[j] = newseg
+                        tot2 = float(path.length())
+                        lens2 = [float(mk_seg(k, p).length()) for k, p in segs2]
+                    except Exception:
+                        tot2 = None
+                    finally:
+                        P._quad_available = True
+                    if tot2 is not None and all(math.isfinite(x) for x in lens2 + [tot2]):
+                        evals += 1
+                        path_terms.append('(%s, %s, %s)' % (coq_list([bf(x) for x in lens2]),
+                                                            bf(1e-9 * max(sum(lens2), 1e-300)), bf(tot2)))
+                        path_meta.append((segs2, cfg, lens2, tot2, 'after pop+append / del+insert'))
                 if n == 1:
                     t0, t1 = T0, T1
                 psub_terms.append('(%d, %s, %d, %s, %d, %s, %s, %s, %s, %s, %s, %s)' % (
@@ -711,7 +734,7 @@ def run(rep, tier, seed, replay=None):
                     m = meta[idx]
                     rep.violation('C06: %s' % CODE_NAMES[code],
                                   {'kind': 'path', 'segments': [repr(mk_seg(k, p)) for k, p in m[0]], 'scipy': m[1],
-                                   'observed': m[2:]}, key='path-length-sum' if code == 6 else 'path-length-sub')
+                                   'observed': m[2:]}, key=('path-length-sum-after-edit' if len(m) > 4 else 'path-length-sum') if code == 6 else 'path-length-sub')
             else:
                 report(fails, meta, {'bez': 'bracket', 'arc': 'bracket', 'closed': 'closed-form model',
                                      'seglen': 'chord-rule model'}[name])
